@@ -39,8 +39,11 @@ func (e *labEP) goDown() {
 	}
 }
 
-// hangUp: the endpoint closes, in an orderly way (FIN), every connection it has
-// accepted so far and keeps listening - a peer that ends idle connections.
+// hangUp: the endpoint ends, in an orderly way, every connection it has
+// accepted so far and keeps listening - a peer that ends idle connections. It
+// shuts down its sending side (FIN) and reads on until the other side has
+// closed too (up to 5 s of running time), so that on return the proxy has
+// seen the end of each connection - unless it never reacts to it.
 func (e *labEP) hangUp() int {
 	e.mu.Lock()
 	accs := e.accs
@@ -48,8 +51,16 @@ func (e *labEP) hangUp() int {
 	e.mu.Unlock()
 	n := 0
 	for _, c := range accs {
-		if !c.isDead() {
-			n++
+		if c.isDead() {
+			c.conn.Close()
+			continue
+		}
+		n++
+		if tc, ok := c.conn.(*net.TCPConn); ok {
+			tc.CloseWrite()
+		}
+		for budget := newPatience(5 * time.Second); !c.isDead() && !budget.spent(); {
+			time.Sleep(time.Millisecond)
 		}
 		c.conn.Close()
 	}
